@@ -411,6 +411,21 @@ class Folder:
             if isinstance(node, ast.DictComp):
                 return dict(out)
             return out
+        if isinstance(node, ast.Subscript):
+            base = self.ev(node.value)
+            if isinstance(base, (str, tuple, list, dict)):
+                try:
+                    if isinstance(node.slice, ast.Slice):
+                        if isinstance(base, dict):
+                            raise Unfoldable(norm(node))
+                        lo = self.ev(node.slice.lower) if node.slice.lower is not None else None
+                        hi = self.ev(node.slice.upper) if node.slice.upper is not None else None
+                        stp = self.ev(node.slice.step) if node.slice.step is not None else None
+                        return base[lo:hi:stp]
+                    return base[self.ev(node.slice)]
+                except (IndexError, KeyError, TypeError):
+                    raise Unfoldable(norm(node))
+            raise Unfoldable(norm(node))
         if isinstance(node, ast.JoinedStr):
             parts = []
             for v in node.values:
